@@ -241,6 +241,15 @@ def long_history_script(seed, tier):
     for _pass in range(2):
         for q_ in Q:
             s.op("pairing", A1, q_)
+    # scalar multiplication paths on many distinct bases, then all of them again (a table cache keyed on the base point)
+    nb = 40 if tier == "quick" else 300
+    bases = [s.op("g1.to_affine", s.op("g1.amul", V.aff(1, g1), V.RR(k + 1000))) for k in range(nb)]
+    kfix = V.RR(rng.getrandbits(255))
+    for _pass in range(2):
+        for b_ in bases:
+            s.op("g1.amul", b_, kfix)
+            s.op("g1.mul_pre3", b_, kfix, s.op("g1.precomp3", b_))
+            s.op("g1.mul", s.op("g1.to_proj", b_), kfix)
     so = G.small_order_points(1, rng)
     host = []
     for k in range(1, 40):
